@@ -30,6 +30,9 @@ def _is_call(t: Term, name: str) -> bool:
 @rule("C12.R1", "regeneration keeps every price up to the regeneration point, continues from the price at that point, and advances the point by exactly the generated length", "T7 slice/index identities", floor=4)
 def r1(ctx: Ctx) -> None:
     f = ctx.func(GN)
+    if "prices" in ctx.program.cls("Fundamentals").methods and ctx.program.cls("Fundamentals").methods["prices"].is_property:
+        ctx.unrec(f, f.node, "the generated paths are kept in Fundamentals.prices", "`prices` is a computed view now and the paths are stored elsewhere: the rules follow the stored dictionary of lists only")
+        return
     n = 0
     for p in normal_paths(ctx.paths(GN)):
         n += 1
@@ -169,6 +172,9 @@ def r2(ctx: Ctx) -> None:
         ctx.check(ok, f, f.node, "adding a market pulls the regeneration point back to its start", "min(start_at, _generated_until)", "; ".join(short(e.value) for e in st))
         pr = [e for e in stores(p, "prices") if e.attr is None]
         ok = len(pr) == 1 and strip_ver(pr[0].value)[0] == "comp" and key(strip_ver(pr[0].value)[2]) == "initial"
+        if not pr and "prices" in ctx.program.cls("Fundamentals").methods and ctx.program.cls("Fundamentals").methods["prices"].is_property:
+            ctx.unrec(f, f.node, "a new market's series starts at the configured initial value", "`prices` is a computed view now and the paths are stored elsewhere")
+            continue
         ctx.check(ok, f, f.node, "a new market's series starts at the configured initial value", "[initial for _ in range(start_at + 1)]", "; ".join(short(e.value) for e in pr))
     # writers of the regeneration point / price store
     allowed = {"Fundamentals.__init__", "Fundamentals.add_market", "Fundamentals.change_volatility", "Fundamentals.change_drift", "Fundamentals.set_correlation",
@@ -185,6 +191,9 @@ def r2(ctx: Ctx) -> None:
 @rule("C12.R3", "a shock multiplies the current fundamental by the scale, records it in the market's and the generator's series at the current time and restarts generation from now", "T7", floor=2)
 def r3(ctx: Ctx) -> None:
     f = ctx.func("Market.change_fundamental_price")
+    if "prices" in ctx.program.cls("Fundamentals").methods and ctx.program.cls("Fundamentals").methods["prices"].is_property:
+        ctx.unrec(f, f.node, "the generated paths are kept in Fundamentals.prices", "`prices` is a computed view now and the paths are stored elsewhere: the rules follow the stored dictionary of lists only")
+        return
     now = ("attr", ("sym", "self"), "time")
     for p in normal_paths(ctx.paths(f.qualname)):
         own = [e for e in p.events if e.kind == "store" and e.attr is None and key(strip_ver(e.base)) == "self._fundamental_prices"]
